@@ -1,1 +1,24 @@
-fn main(){}
+//! Engine C ("fsmodel"): reference models + drivers for turmoil-fs and
+//! turmoil-io-uring. Serves C07, C10, C18.
+mod c10;
+mod diff;
+mod directed;
+mod gen;
+mod model;
+mod ops;
+mod real;
+mod simdrv;
+mod zones;
+
+fn main() {
+    let args: Vec<String> = std::env::args().collect();
+    let ctx = vcore::Ctx::from_args(&args[1..]);
+    vcore::install_quiet_panic_hook();
+    match ctx.prop.as_str() {
+        "C10" => c10::run(&ctx),
+        other => {
+            println!("INCONCLUSIVE property={other} not served by fsmodel");
+            std::process::exit(2);
+        }
+    }
+}
